@@ -752,6 +752,13 @@ func endsWithJSONExt(v ssa.Value, seen map[ssa.Value]bool, depth int) (bool, str
 			}
 			return false, "cannot resolve filepath.Join arguments"
 		}
+		if strings.HasSuffix(calleeName(cc), "fmt.Sprintf") && len(cc.Args) > 0 {
+			// a format whose literal tail is the extension
+			if format, ok := constStringVal(cc.Args[0]); ok && strings.HasSuffix(format, ".json") && !strings.HasSuffix(format, "%.json") {
+				return true, ""
+			}
+			return false, "fmt.Sprintf with a format that does not end in \".json\""
+		}
 		if f := cc.StaticCallee(); f != nil && len(f.Blocks) > 0 && f.Pkg != nil && strings.HasPrefix(f.Pkg.Pkg.Path(), modPath) {
 			for _, in := range instrsWhere(f, isReturn) {
 				if ok, why := endsWithJSONExt(in.(*ssa.Return).Results[0], seen, depth+1); !ok {
